@@ -338,7 +338,10 @@ def frame(r, tag, body, allow_partial=True):
         p = r.choice([0, 3, 8])
         chunks.append(p)
         rest -= 1 << p
-    return wire.partial_body(tag, body, chunks), f
+    # the closing (definite) length in any of its forms: shortest, two-octet where it fits, five-octet
+    last = len(body) - sum(1 << p for p in chunks)
+    final = r.choice(['min', 5, 5] + ([2] if 192 <= last < 8384 else []))
+    return wire.partial_body(tag, body, chunks, final=final), f + ('' if final == 'min' else '-final%s' % final)
 
 
 def gen_foreign(r, tag):
@@ -447,6 +450,7 @@ def _foreign(ctx, d, pgpy):
         raw, form = frame(r, tag, body)
         trail = r.choice(TRAIL) if form != 'indeterminate' else b''
         ctx.count('foreign_packets')
+        ctx.outcome('foreign_form:' + form)
         ctx.count('evaluations')
         # the reference must agree that this is one well-formed packet with that body
         try:
